@@ -309,8 +309,7 @@ int cmdWorker(int argc, char** argv) {
       }
     }
     if (o.violated) {
-      std::string key = std::string(h->id()) + "|" + o.sig;
-      if (g_known.count(key)) { ++g_ws.known; ++g_ws.knownHits[o.sig]; }
+      if (isKnownFinding(h->id(), o.sig)) { ++g_ws.known; ++g_ws.knownHits[o.sig]; }
       else {
         ++g_ws.violations;
         if (reported < 8) {
@@ -328,7 +327,8 @@ int cmdWorker(int argc, char** argv) {
 }
 
 // ---------------------------------------------------------------- shrink
-bool sameClass(const Outcome& a, const Outcome& ref) { return a.violated && a.cls == ref.cls; }
+// a shrink candidate must reproduce the same violation: same class and same signature (the signature is class + a narrow qualifier)
+bool sameClass(const Outcome& a, const Outcome& ref) { return a.violated && a.cls == ref.cls && a.sig == ref.sig; }
 
 Plan shrinkPlan(const Harness* h, Plan p, const Outcome& ref, int& execs, int maxExecs) {
   auto test = [&](const Plan& c) { if (execs >= maxExecs) return false; ++execs; return sameClass(runIsolated(h, c), ref); };
@@ -446,7 +446,14 @@ int cmdMerge(int argc, char** argv) {
 
 }  // namespace
 
-namespace dsim { bool isKnownFinding(const std::string& prop, const std::string& sig) { return g_known.count(prop + "|" + sig) > 0; } }
+namespace dsim {
+bool isKnownFinding(const std::string& prop, const std::string& sig) {
+  std::string key = prop + "|" + sig;
+  if (g_known.count(key)) return true;
+  for (const std::string& k : g_known) if (!k.empty() && k.back() == '*' && key.compare(0, k.size() - 1, k, 0, k.size() - 1) == 0) return true;   // "PROP|prefix*"
+  return false;
+}
+}
 
 int main(int argc, char** argv) {
   if (argc < 2) { fprintf(stderr, "usage: simharness worker|plan|investigate|replay|info|merge ...\n"); return 2; }
